@@ -17,6 +17,14 @@
 (*             2^-(E_p - MinExp); not below the Viterbi maximum; backward       *)
 (*             within the same tolerance of the preceding forward;              *)
 (*   probability zero (no path with finite exponent) <=> exactly ln(0).         *)
+(*                                                                              *)
+(* run.cfg.cls = "gen": the model is given entry by entry (above).              *)
+(* run.cfg.cls = "cyc": closed-form cycle family of HmmExp.tla (hundreds of     *)
+(*   states; the run carries only the parameters).  Viterbi must return THE     *)
+(*   optimal path ClosedPath (it is unique) with exponent ClosedExp; forward /  *)
+(*   backward are only bounded: max term <= sum <= S^T * max term, in exponent  *)
+(*   form  ClosedExp - T*ceil(log2 S) <= k <= ClosedExp (+1 for a mantissa      *)
+(*   rounded up to 2).                                                          *)
 EXTENDS HmmExp, Json, IOUtils
 
 Rec == ndJsonDeserialize(IOEnv.TRACE)
@@ -66,6 +74,21 @@ Explains(evs, k, m, mn) ==
       [] OTHER -> FALSE
 
 Init == run \in 1..Len(Rec) /\ idx = 0 /\ ok = TRUE
+CycExplains(evs, k, p) ==
+    LET e == evs[k]  c == e.c  r == e.r IN
+    CASE c.op = "new" -> r.st = "ok" /\ CycValid(p)
+      [] c.op = "viterbi" ->
+           /\ r.st = "ok" /\ Flags0(r) /\ r.neginf = 0
+           /\ Len(c.a.obs) >= 1
+           /\ r.path = ClosedPath(p, Len(c.a.obs))
+           /\ r.e = ClosedExp(p, Len(c.a.obs)) /\ r.dev <= 1000
+      [] c.op \in {"forward", "backward"} ->
+           /\ r.st = "ok" /\ Flags0(r) /\ r.neginf = 0
+           /\ LET d == ClosedExp(p, Len(c.a.obs)) - r.k
+              IN  d >= -1 /\ d <= Len(c.a.obs) * Log2Ceil(p.s)
+           /\ r.mant >= Pow2(MB) - 1 /\ r.mant <= Pow2(MB + 1)
+      [] OTHER -> FALSE
+
 \* For viterbi events the machine layer is run on the traced input: its value must be the
 \* path minimum (specification self-check: TLC error, never a VIOLATION); a reported path
 \* that is minimal but not the machine's path is DRIFT.
@@ -73,11 +96,12 @@ Next ==
     /\ ok /\ idx < Len(Rec[run].ev)
     /\ LET e    == Rec[run].ev[idx + 1]
            m    == Rec[run].cfg
-           mn   == IF e.c.op \in {"viterbi", "forward", "backward"} THEN MinExp(m, e.c.a.obs) ELSE 0
-           good == Explains(Rec[run].ev, idx + 1, m, mn)
+           gen  == m.cls = "gen"
+           mn   == IF gen /\ e.c.op \in {"viterbi", "forward", "backward"} THEN MinExp(m, e.c.a.obs) ELSE 0
+           good == IF gen THEN Explains(Rec[run].ev, idx + 1, m, mn) ELSE CycExplains(Rec[run].ev, idx + 1, m)
        IN  /\ ok' = good
            /\ IF ~good THEN PrintT(<<"REJECT", run, idx + 1>>)
-              ELSE IF e.c.op # "viterbi" THEN TRUE
+              ELSE IF ~gen \/ e.c.op # "viterbi" THEN TRUE
               ELSE LET mv == XMachineViterbi(m, e.c.a.obs) IN
                    /\ Assert(mv.e = mn, "(min,+) Viterbi machine # path minimum")
                    /\ IF e.r.path # mv.path THEN PrintT(<<"DRIFT", run, idx + 1>>) ELSE TRUE
